@@ -50,7 +50,7 @@ TABLE = {
             "Every documented rule is broken at every position of every base game; solve() must raise ValueError and the batch "
             "runner must record the message.", "deviation alphabet listed in DESIGN 2/C09", "2/C09"),
     "C10": ("explicit-state exploration of solve histories (BFS over operation sequences with canonical state de-duplication)",
-            "All histories up to depth 3 (thorough 4) over 8 operations (same/fresh object x pruned/unpruned solves, validation and counting on "
+            "All histories up to depth 3 (thorough 4) over 9 operations (same/fresh object x pruned/unpruned solves, a batch run of the same description through run_games, validation and counting on "
             "the persistent object, fresh solves with the root logger at DEBUG) on every game of the universes, with de-duplication of canonical "
             "states; after each step the description equals the pristine copy and the result equals the reference computed in a forked fresh process.",
             "state = deep snapshot of description + object attributes + module globals", "2/C10"),
